@@ -12,35 +12,46 @@ from ..core import Case
 
 ID = 'C07'
 MANIFEST = {
-    'text': ('Coq theorems about util.resolve_dtype REGENERATED from /repo on every run (proved equal to the typed function SF.Coerce.resolve by '
-             'resolve_refines): C07_resolve_dtype_no_loss -- for every pair of dtypes outside the explicit lossy pairs the chosen dtype holds every value of '
-             'either side (all string widths, all integers, all binary floats, all datetime64/timedelta64 units); C07_resolve_iter_no_loss / '
-             'C07_concat_no_loss / C07_fill_no_loss -- the n-ary decision loops of resolve_dtype_iter (early exit), concat_resolved and full_for_fill/'
-             'dtype_from_element keep every supplied cell for every number of blocks/arrays and every placement; C07_iter_object -- the flag loop of '
-             'prepare_iter_for_array decides object exactly for tuple / str+non-str / big-int+float; C07_model_sound -- an observation accepted by the '
-             'implementation model M satisfies the specification S under the guards. Correspondence: every ordered pair of dtype kinds x every merging '
-             'operation through the public interface (Series/Frame/Index reindex, shift, fillna*, assign, insert, from_concat, from_overlay, from_records, '
-             'row consolidation, IndexGO.append/extend) over all block layouts of small frames, evaluated inside Coq against M (result dtype + which cells '
-             'survive) and S (every stored cell is the supplied cell; untouched columns keep dtype).'),
-    'note': ('trusted: Coq kernel, py2v translator, PyDyn semantics, harness, the hand oracle np_result_type (swept exhaustively against NumPy on the dtype '
-             'grid every run) and np_promote/np_discover (NumPy dtype discovery, swept on the iterable strata). M is modelled at the column level '
-             '(dtype decision + per-cell survival), not the NumPy cast bit patterns: a lost cell is only predicted as "differs". Known findings: int64/uint64 '
-             'meeting float/complex or uint64 meeting signed ints (NumPy promotion to float64), datetime64[Y|M] meeting [W], datetime/timedelta columns '
-             'coerced to object (NaT->None, ns->int), iterable constructors delegating bool+number / bytes+number / big-int mixes to NumPy discovery. '
-             'Not covered: time values whose count overflows int64 in the finer unit (NumPy raises or crashes), str+bytes (excluded by the property), '
-             'structured dtypes, longdouble values, non-ASCII strings.'),
+    'text': ('Coq theorems, unbounded, about util.resolve_dtype REGENERATED from /repo on every run (resolve_refines: equal to the typed SF.Coerce.resolve on '
+             'every dtype pair): C07_resolve_dtype_no_loss (outside the explicit lossy pairs the chosen dtype holds every value of either side: all string '
+             'widths, all integers, all binary floats, all datetime64/timedelta64 units), C07_resolve_dtype_comm, C07_nary_no_loss (the loops of '
+             'resolve_dtype_iter with its early return and of concat_resolved equal the left fold of the regenerated kernel and keep every value, any number '
+             'of participants), C07_dtype_from_element_holds, C07_fill_no_loss, C07_fill/fillr/concat/row_operation_lossless (an observation accepted by the '
+             'implementation model M for element-meets-column, concatenation, row consolidation satisfies the specification S for every arrangement and '
+             'number of cells), C07_iter_flags_spec + C07_iter_object_no_loss (the flag loop of prepare_iter_for_array), C07_iter_object_cond_source and '
+             'C07_big_int_threshold_exact (decision and threshold read from the source AST), C07_fill_value_held (regenerated dtype_to_fill_value), '
+             'C07_model_sound, C07_bloc_untouched_dtype (Boolean-target assignment keeps untargeted columns for every layout without mixed blocks). '
+             'Correspondence through the public interface: Series/Frame/Index reindex, shift, fillna*, assign (iloc/loc/bloc/column/row), insert, '
+             'from_concat, from_overlay, from_records/from_dict/from_items, row consolidation (iloc[row], values, transpose, iter_array), IndexGO.append/extend '
+             'over a 43-dtype x 57-element grid and every block layout, each case evaluated inside Coq against M (result dtype + which cells survive) and S '
+             '(every stored cell is the supplied cell; untouched columns keep their dtype); kernel sweeps of resolve_dtype (47x47), dtype_from_element, '
+             'dtype_to_fill_value, dtype_kind_to_na, resolve_dtype_iter/concat_resolved, prepare_iter_for_array.'),
+    'note': ('trusted: Coq kernel, py2v translator, PyDyn semantics, harness, the hand oracle np_result_type (swept against NumPy on the dtype grid every run; '
+             'a mismatch is a machinery error) and np_promote/np_discover (NumPy dtype discovery; validated by the iterable strata). M is a column-level model '
+             '(dtype decision + per-cell survival); a lost cell is predicted only as "differs from the supplied one". The hand transcriptions of '
+             'dtype_from_element / resolve_dtype_iter / concat_resolved / full_for_fill / prepare_iter_for_array are guarded by AST shape hashes (fail closed). '
+             'Partial: composite paths (from_overlay over a union index, fillna(Frame), Frame.from_overlay) are compared with S only. Known findings (9): '
+             'int64/uint64 meeting float/complex or uint64 meeting signed ints; datetime64[Y|M] meeting [W]; time columns converted to object (NaT->None, ns->int); '
+             'Boolean-target assignment / fillna retyping a whole 2-D block; iterable constructors leaving bool+number, bytes+number, big-int and timedelta mixes '
+             'to NumPy discovery; dtype_kind_to_na returning the datetime NaT for timedelta. Not covered: time values whose count overflows int64 in the finer '
+             'unit (NumPy raises OverflowError or crashes), str+bytes (excluded by the property), structured dtypes, longdouble values, non-ASCII strings, '
+             'Index set operations, joins/pivots (C20).'),
     'technique': 'refinement of regenerated kernel + value-domain inclusion proof + differential correspondence',
 }
 PROPERTY_FILES = ['Properties/C07.v']
 REFUTED_FILES = ['Refuted/C07.v']
-MODEL_FILES = ['SF/Coerce.v', 'Gen/Gen_util.v']
+MODEL_FILES = ['SF/Coerce.v', 'SF/CoerceDyn.v', 'Gen/Gen_util.v', 'Gen/Gen_c07.v']
 TRANSLATED = ['resolve_dtype', 'dtype_kind_to_na', 'dtype_to_fill_value']
 IMPORTS = 'Require Import SF.Prelude SF.PySlice SF.Dtype SF.PyDyn Gen.Gen_util SF.Coerce.'
-RULE = ('api strata: (host dtype from a 40-dtype grid) x (fill element from a 45-element grid incl. NaN None NaT 2**53+1 2**63 2**64 long strings tuples numpy scalars) '
-        'or (other array dtype from the grid) through each merging operation of Series / Frame (every block layout of the frame) / Index; quick tier: one operation '
-        'exhaustively + a seeded sample of the others, thorough tier: every operation x every pair. kernel strata: util.resolve_dtype on every ordered dtype pair '
-        'against the regenerated Gallina function, np.result_type against the oracle, dtype_from_element on the element grid. A case is non-trivial when two '
-        'different dtypes (or an element of a dtype different from the host) really meet; distinct = distinct (operation, dtypes, element, layout).')
+RULE = ('api strata: (host column from a 43-entry dtype grid: bool, 8 int, 3 float, 2 complex, 2 str widths, 2 bytes widths, 9 datetime64 and 7 timedelta64 units with and '
+        'without NaT, object) x (one element from a 57-element grid incl. NaN None NaT 2**53+1 2**63 2**64 long strings tuples NumPy scalars date/datetime/timedelta) '
+        'or x (another column of the grid), through 11 Series/Index element operations, 10 Series array operations, 11 Frame element operations and 14 Frame array '
+        'operations, the Frame ones under EVERY block layout (zoo.layouts_for); iterable constructors on all pairs and a lattice of triples of a 37-element grid. '
+        'quick tier: a seeded sample of each space plus one fixed witness per known finding; thorough tier: the complete product (Frame strata on the 31x32 core grid). '
+        'kernel strata: util.resolve_dtype on all 47x47 ordered dtype pairs against the regenerated Gallina function and the typed model, np.result_type against the '
+        'oracle (562 pairs), dtype_from_element, dtype_to_fill_value, dtype_kind_to_na, random dtype lists through resolve_dtype_iter/concat_resolved, random element '
+        'lists through prepare_iter_for_array. An operation that raises stores nothing (counted, trivial). A case is non-trivial when two different dtypes really meet; '
+        'distinct = distinct (operation, dtypes/values, element, layout).')
 ASSUMPTIONS = ['np.result_type = SF.Dtype.np_result_type on the pairs resolve_dtype passes to it (exhaustive sweep each run)',
                'NumPy stores a value into an array of dtype d without change iff SF.Coerce.holds d v (validated by the correspondence: a cell M predicts to survive is observed equal)',
                'np.array(sequence) dtype discovery = SF.Coerce.np_discover on bool/int/float/complex/str/bytes/None elements']
@@ -48,6 +59,76 @@ TRUSTED = ['SF.Coerce.np_promote / np_discover / str_width: hand oracle of NumPy
 EXHAUSTIVE = {'quick': False, 'thorough': True}
 
 warnings.simplefilter('ignore')
+
+# ------------------------------------------------------------------------------------------- regenerated from the source on every run
+# The hand-written models in SF/Coerce.v transcribe these util.py functions; if the text of one of them changes the
+# transcription is no longer known to describe the code: the extractor fails closed (the run then searches for a failing input).
+MODELLED_SHAPES = {
+    'dtype_from_element': '45a42f5e54320753',      # SF.Coerce.elem_dtype
+    'resolve_dtype_iter': 'b6362cb4cdb4ddb0',      # SF.Coerce.resolve_iter_loop
+    'concat_resolved': '88c6cc36732e78cb',         # SF.Coerce.concat_loop
+    'full_for_fill': '7736b40dd67819fd',           # plan PFill / PElem
+    'prepare_iter_for_array': '09be8e44b62ae62d',  # SF.Coerce.iter_step
+}
+_FLAGS = ('has_tuple', 'has_enum', 'has_str', 'has_non_str', 'has_inexact', 'has_big_int')
+
+
+def _shape(fn):
+    import ast
+    import hashlib
+    body = fn.body
+    if body and isinstance(body[0], ast.Expr) and isinstance(getattr(body[0], 'value', None), ast.Constant) and isinstance(body[0].value.value, str):
+        body = body[1:]
+    return hashlib.sha1('\n'.join(ast.dump(b) for b in body).encode()).hexdigest()[:16]
+
+
+def _bool_expr(node):
+    import ast
+    if isinstance(node, ast.Name) and node.id in _FLAGS:
+        return node.id
+    if isinstance(node, ast.BoolOp):
+        op = ' || ' if isinstance(node.op, ast.Or) else ' && '
+        return '(' + op.join(_bool_expr(v) for v in node.values) + ')'
+    if isinstance(node, ast.UnaryOp) and isinstance(node.op, ast.Not):
+        return f'(negb {_bool_expr(node.operand)})'
+    raise ValueError(f'unexpected node in the object condition: {ast.dump(node)[:80]}')
+
+
+def generate(repo):
+    '''Gen/Gen_c07.v: the big-int threshold and the `resolved = object` decision of util.prepare_iter_for_array, read from the AST.'''
+    import ast
+    import os
+    with open(os.path.join(repo, 'static_frame/core/util.py')) as f:
+        tree = ast.parse(f.read())
+    funcs = {n.name: n for n in tree.body if isinstance(n, ast.FunctionDef)}
+    consts = {n.targets[0].id: n.value for n in tree.body if isinstance(n, ast.Assign) and len(n.targets) == 1 and isinstance(n.targets[0], ast.Name)}
+    for name, want in MODELLED_SHAPES.items():
+        if name not in funcs:
+            raise ValueError(f'util.{name} not found')
+        got = _shape(funcs[name])
+        if got != want:
+            raise ValueError(f'util.{name} changed (shape {got}, the model transcribes {want})')
+    c = consts.get('INT_MAX_COERCIBLE_TO_FLOAT')
+    if not (isinstance(c, ast.Constant) and isinstance(c.value, int) and not isinstance(c.value, bool)):
+        raise ValueError('INT_MAX_COERCIBLE_TO_FLOAT is not an int literal')
+    # the statement  `if <t1>: resolved = object  elif <t2>: resolved = object`  inside the loop
+    found = []
+    for node in ast.walk(funcs['prepare_iter_for_array']):
+        if isinstance(node, ast.If) and len(node.body) == 1 and isinstance(node.body[0], ast.Assign):
+            a = node.body[0]
+            if (len(a.targets) == 1 and isinstance(a.targets[0], ast.Name) and a.targets[0].id == 'resolved'
+                    and isinstance(a.value, ast.Name) and a.value.id == 'object'):
+                found.append(node)
+    if len(found) != 2 or found[0].orelse != [found[1]] or found[1].orelse:
+        raise ValueError('prepare_iter_for_array: the `resolved = object` decision no longer has the shape if/elif')
+    cond = f'{_bool_expr(found[0].test)} || {_bool_expr(found[1].test)}'
+    text = ('(* GENERATED by tools/sfv/props/c07.py generate() from /repo/static_frame/core/util.py -- do not edit; regenerated on every run. *)\n'
+            'Require Import SF.Prelude.\n\n'
+            f'Definition GEN_INT_MAX_COERCIBLE_TO_FLOAT : Z := {lit.z(c.value)}.\n\n'
+            '(* util.prepare_iter_for_array: when `resolved = object` is assigned *)\n'
+            f'Definition gen_iter_object_cond ({" ".join(_FLAGS)} : bool) : bool :=\n  {cond}.\n')
+    return {'Gen/Gen_c07.v': text}
+
 
 # ------------------------------------------------------------------------------------------- literals
 _UNITS = {'generic': 'UGen', 'Y': 'UY', 'M': 'UM', 'W': 'UW', 'D': 'UD', 'h': 'Uh', 'm': 'Um', 's': 'Us', 'ms': 'Ums', 'us': 'Uus', 'ns': 'Uns'}
@@ -180,6 +261,15 @@ FILLS = [True, False, 0, 1, -1, 255, 256, 2**31, 2**53, 2**53 + 1, 2**63 - 1, 2*
          (1, 'a'), np.int8(3), np.int16(-300), np.uint8(200), np.uint64(2**64 - 1), np.int64(2**53 + 1), np.float32(1.5), np.float16(1.5),
          np.float64(0.1), np.complex64(1 + 2j), np.str_('abcdef'), np.bytes_(b'xyz'), np.bool_(False),
          datetime.date(2020, 1, 1), datetime.datetime(2020, 1, 1, 12, 30), datetime.timedelta(days=2)]
+
+
+# a smaller grid for the Frame strata (they are multiplied by every block layout)
+HOSTS_CORE = [k for k in HOSTS if k.split('/')[0] not in ('M8[h]', 'M8[ms]', 'M8[us]', 'm8[M]', 'm8[W]', 'm8[s]', 'm8[us]')
+              and k not in ('M8[Y]/full', 'M8[s]/full', 'm8[D]/full')]
+FILLS_CORE = [True, 0, -1, 256, 2**53 + 1, 2**63 - 1, 2**63, 2**64, 1.5, 0.1, float('nan'), float('inf'), 1 + 2j, 'a', 'abcdefgh', b'abcdefgh', None,
+              np.datetime64('NaT'), np.datetime64('2020-01-01'), np.datetime64('2020-03', 'M'), np.datetime64('2020-01-02', 'W'), np.datetime64(1, 'ns'),
+              np.timedelta64(5, 'D'), np.timedelta64(7, 'ns'), np.timedelta64('NaT'), (1, 'a'), np.int8(3), np.uint64(2**64 - 1), np.float32(1.5),
+              np.str_('abcdef'), np.bool_(False), datetime.date(2020, 1, 1)]
 
 
 def kind_of_elem(x):
@@ -332,6 +422,8 @@ class Col:
         self.plan, self.cells, self.obs, self.keep = plan, cells, obs, keep
 
     def m(self):
+        if self.plan is None:      # a composite path that M does not model: only the specification is evaluated
+            return 'true'
         return f'M_check {self.plan} {lit.lst(self.cells)} {dt(self.obs.dtype)} {lit.lst([cv(x) for x in cells_of(self.obs)])}'
 
     def s(self):
@@ -339,6 +431,32 @@ class Col:
         if self.keep is not None:
             t = f'({t}) && dtype_eqb {dt(self.keep)} {dt(self.obs.dtype)}'
         return t
+
+
+class Raw:
+    '''An extra pair of Coq bool terms (model, specification) that is not a column.'''
+    def __init__(self, m, s):
+        self._m, self._s = m, s
+        self.obs = None
+
+    def m(self):
+        return self._m
+
+    def s(self):
+        return self._s
+
+
+def bloc_terms(layout, srcs, hit_cols, fv, observed):
+    '''Block-level model (SF.Coerce.M_bloc) and per-column specification (S_bloc) of the result dtypes.'''
+    blocks, pos = [], 0
+    for w, _ in layout:
+        blocks.append(f'({dt(srcs[pos].dtype)}, {w}%nat)')
+        pos += w
+    hits = lit.lst([lit.b(j in hit_cols) for j in range(len(srcs))])
+    obs = lit.lst([dt(a.dtype) for a in observed])
+    vd = f'(elem_dtype {elem(fv)})'
+    return Raw(f'list_eqb dtype_eqb (M_bloc {lit.lst(blocks)} {hits} {vd}) {obs}',
+               f'list_eqb dtype_eqb (S_bloc (expand_blocks {lit.lst(blocks)}) {hits} {vd}) {obs}')
 
 
 def conj(terms):
@@ -395,7 +513,8 @@ def mk_case(ctx, kind, op, desc, cols, sources, tags=None, nontrivial=True):
     except ValueError as e:   # a value outside the literal model (non-ascii, longdouble ...)
         ctx.count(f'{kind}:unprintable')
         return None
-    d = dict(desc, op=op, observed=[{'dtype': str(c.obs.dtype), 'values': rp(c.obs.tolist() if c.obs.dtype.kind not in 'Mm' else [str(x) for x in c.obs])} for c in cols])
+    d = dict(desc, op=op, observed=[{'dtype': str(c.obs.dtype), 'values': rp(c.obs.tolist() if c.obs.dtype.kind not in 'Mm' else [str(x) for x in c.obs])}
+                                    for c in cols if c.obs is not None])
     ctx.count(kind)
     return Case(kind, d, m=m, s=s, tags=t, nontrivial=nontrivial)
 
@@ -528,10 +647,10 @@ def elem_case(ctx, kind, op, hd, fv):
 def series_elem_cases(ctx):
     pairs = [(hd, fv) for hd in HOSTS for fv in FILLS]
     for k, op in enumerate(SERIES_ELEM_OPS):
-        if ctx.tier == 'thorough' or k == 0:
+        if ctx.tier == 'thorough':
             sel = pairs
         else:
-            sel = ctx.rng.sample(pairs, ctx.n(60, 0))
+            sel = ctx.rng.sample(pairs, min(len(pairs), ctx.n(450 if k == 0 else 35, 0)))
         for hd, fv in sel:
             c = elem_case(ctx, 'api:series-elem', op, hd, fv)
             if c is not None:
@@ -604,6 +723,19 @@ def op_s_overlay(a, b):
     return [Col(p_pair(b.dtype, a.dtype), _overlay_cells(a, b), r.values)]
 
 
+def op_s_overlay_union(a, b):
+    '''from_overlay over the union index: reindex with dtype_kind_to_na, then fillna(Series) (composite: S only).'''
+    sf = _sf()
+    r = sf.Series.from_overlay((sf.Series(a), sf.Series(b, index=(2, 3, 4))))
+    na = _na_mask(a)
+    cells = from_arr(a, [0, 1]) + (from_arr(b, [0]) if na[2] else from_arr(a, [2])) + from_arr(b, [1, 2])
+    # the fill value is util.dtype_kind_to_na(kind): NaN for numbers, the DATETIME NaT for both time kinds, else None
+    k = a.dtype.kind
+    na = float('nan') if k in 'iufc' else (np.datetime64('NaT') if k in 'Mm' else None)
+    tags = {'finding': 'C07-overlay-timedelta'} if k == 'm' else {}
+    return [Col(None, cells, r.values)], tags, [A(a), A(b), E(na)]
+
+
 def op_idxgo_extend(a, b):
     sf = _sf()
     g = sf.IndexGO(a[:2])
@@ -615,7 +747,7 @@ def op_idxgo_extend(a, b):
 
 
 SERIES_ARR_OPS = [op_s_concat, op_s_concat3, op_s_insert_after, op_s_insert_before, op_s_assign_arr, op_s_assign_series,
-                  op_s_fillna_series, op_s_overlay, op_idxgo_extend]
+                  op_s_fillna_series, op_s_overlay, op_idxgo_extend, op_s_overlay_union]
 
 
 def arr_case(ctx, kind, op, hd, od, **kw):
@@ -640,7 +772,7 @@ def arr_case(ctx, kind, op, hd, od, **kw):
 def series_arr_cases(ctx):
     pairs = [(hd, od) for hd in HOSTS for od in HOSTS]
     for k, op in enumerate(SERIES_ARR_OPS):
-        sel = pairs if (ctx.tier == 'thorough' or k == 0) else ctx.rng.sample(pairs, ctx.n(60, 0))
+        sel = pairs if ctx.tier == 'thorough' else ctx.rng.sample(pairs, min(len(pairs), ctx.n(350 if k == 0 else 35, 0)))
         for hd, od in sel:
             c = arr_case(ctx, 'api:series-array', op, hd, od)
             if c is not None:
@@ -749,6 +881,7 @@ def fop_fillna(a, fv, layout):
             cols.append(keep_col(c, colvals(r, l)))
         else:
             cols.append(Col(plans[j], _fillna_cells(c, fv, lambda i: na[i]), colvals(r, l), keep=None if j in hit else c.dtype))
+    cols.append(bloc_terms(layout, srcs, hit, fv, [colvals(r, l) for l in COLS3]))
     return cols, _retype_tag(layout, srcs, hit, elem_np_dtype(fv))
 
 
@@ -768,6 +901,7 @@ def fop_fillna_trailing(a, fv, layout):
             cols.append(keep_col(c, colvals(r, l)))
         else:
             cols.append(Col(plans[j], _fillna_cells(c, fv, lambda i: i >= k), colvals(r, l), keep=None if j in hit else c.dtype))
+    cols.append(bloc_terms(layout, srcs, hit, fv, [colvals(r, l) for l in COLS3]))
     return cols, _retype_tag(layout, srcs, hit, elem_np_dtype(fv))
 
 
@@ -805,6 +939,7 @@ def fop_assign_bloc(a, fv, layout):
             cols.append(keep_col(c, colvals(r, COLS3[j])))
         else:
             cols.append(Col(plans[j], from_arr(c), colvals(r, COLS3[j]), keep=c.dtype))
+    cols.append(bloc_terms(layout, srcs, [0], fv, [colvals(r, l) for l in COLS3]))
     return cols, _retype_tag(layout, srcs, [0], elem_np_dtype(fv))
 
 
@@ -819,6 +954,8 @@ def frame_elem_case(ctx, op, hd, fv, layout):
         return None
     if isinstance(fv, tuple) and op.__name__ not in TUPLE_OK:
         return None
+    if op is fop_assign_row_elem and isinstance(fv, (bytes, np.bytes_)):
+        return None     # a bytes object assigned across columns is taken as a sequence of ints, not as one element
     desc = {'host_dtype': hd, 'columns': {'c0': rp(HOSTS[hd]), 'c1': 'c0 without missing values', 'c2': '[10, 20, 30] int64'},
             'element': rp(fv), 'element_type': type(fv).__name__, 'layout': zoo.layout_str(layout)}
     tags = {'layout': zoo.layout_str(layout)}
@@ -834,9 +971,9 @@ def frame_elem_case(ctx, op, hd, fv, layout):
 
 
 def frame_elem_cases(ctx):
-    pairs = [(hd, fv) for hd in HOSTS for fv in FILLS]
+    pairs = [(hd, fv) for hd in HOSTS_CORE for fv in FILLS_CORE]
     for op in FRAME_ELEM_OPS:
-        sel = pairs if ctx.tier == 'thorough' else ctx.rng.sample(pairs, ctx.n(14, 0))
+        sel = pairs if ctx.tier == 'thorough' else ctx.rng.sample(pairs, min(len(pairs), ctx.n(8, 0)))
         for hd, fv in sel:
             for layout in layouts3(host(hd)):
                 c = frame_elem_case(ctx, op, hd, fv, layout)
@@ -903,16 +1040,87 @@ def fop_insert_after(a, b, layout):
     return [keep_col(a, colvals(r, 'x')), keep_col(b, colvals(r, 'z')), keep_col(OTHER, colvals(r, 'y'))]
 
 
-FRAME_ARR_OPS = [fop_row, fop_values, fop_concat0, fop_concat1_aligned, fop_assign_col_arr, fop_assign_part_arr, fop_insert_after]
+def fop_transpose(a, b, layout):
+    f = frame2(a, b, layout)
+    ds = [a.dtype] if len(layout) == 1 else [a.dtype, b.dtype]
+    t = f.transpose()
+    return [Col(p_iterdt(ds), from_arr(a, [i]) + from_arr(b, [i]), t[i].values) for i in range(len(a))]
+
+
+def fop_iter_array_rows(a, b, layout):
+    f = frame2(a, b, layout)
+    ds = [a.dtype] if len(layout) == 1 else [a.dtype, b.dtype]
+    return [Col(p_iterdt(ds), from_arr(a, [i]) + from_arr(b, [i]), row) for i, row in enumerate(f.iter_array(axis=1))]
+
+
+def fop_concat1_union(a, b, layout):
+    '''from_concat(axis=1) over a union index: every frame is reindexed with fill_value NaN.'''
+    sf = _sf()
+    f1 = zoo.frame_from_columns([a, OTHER], layout, columns=('x', 'y'), index=(0, 1, 2))
+    f2 = sf.Frame.from_items((('z', b),), index=(1, 2, 3))
+    r = sf.Frame.from_concat((f1, f2), axis=1)
+    nan = float('nan')
+    return ([Col(p_fill(a.dtype, nan), from_arr(a) + from_elem(nan), colvals(r, 'x')),
+             Col(p_fill(OTHER.dtype, nan), from_arr(OTHER) + from_elem(nan), colvals(r, 'y')),
+             Col(p_fill(b.dtype, nan), from_elem(nan) + from_arr(b), colvals(r, 'z'))], {}, [A(a), A(b), A(OTHER), E(nan)])
+
+
+def fop_assign_row_series(a, b, layout):
+    '''assign.iloc[row](Series): the Series' array meets every targeted block.'''
+    sf = _sf()
+    f = frame2(a, a, layout)
+    r = f.assign.iloc[1](sf.Series(b[:2], index=('c0', 'c1')))
+    # the row is written one scalar per block: resolve_dtype(array dtype, block dtype), then item assignment of b[j]
+    # (a 2-D block receives the slice of the array instead: array conversion)
+    two_d = len(layout) == 1
+    cols = [Col(p_pair(b.dtype, a.dtype), from_arr(a, [0]) + (from_arr(b, [j]) if two_d else from_elem(b[j])) + from_arr(a, [2]), colvals(r, l))
+            for j, l in enumerate(('c0', 'c1'))]
+    return cols, {}, [A(a)] + ([A(b[:2])] if two_d else [E(b[0]), E(b[1])])
+
+
+def fop_fillna_frame(a, b, layout):
+    '''fillna(Frame): the fill frame is consolidated to ONE 2-D array first (composite: S only).'''
+    sf = _sf()
+    f = frame2(a, OTHER, layout)
+    g = sf.Frame.from_items((('c0', b), ('c1', OTHER)))
+    r = f.fillna(g)
+    return [Col(None, _overlay_cells(a, b), colvals(r, 'c0')), Col(None, from_arr(OTHER), colvals(r, 'c1'))], {}, [A(a), A(b), A(OTHER)]
+
+
+def fop_overlay(a, b, layout):
+    sf = _sf()
+    f = frame2(a, OTHER, layout)
+    g = sf.Frame.from_items((('c0', b), ('c1', OTHER)))
+    r = sf.Frame.from_overlay((f, g))
+    if not any(_na_mask(a)):
+        return [keep_col(a, colvals(r, 'c0')), keep_col(OTHER, colvals(r, 'c1'))]
+    return [Col(None, _overlay_cells(a, b), colvals(r, 'c0')), keep_col(OTHER, colvals(r, 'c1'))]
+
+
+def fop_from_dict_lists(a, b, layout):
+    '''Frame.from_dict with plain lists: every column goes through iterable_to_array_1d.'''
+    sf = _sf()
+    xs = cells_of(a)[:2] + cells_of(b)[:1]
+    r = sf.Frame.from_dict({'k': list(xs), 'n': [1, 2, 3]})
+    tags = {}
+    fnd = iter_finding(xs)
+    if fnd:
+        tags['finding'] = fnd
+    return [Col(iter_plan(xs), [f'(FromElem {elem(x)})' for x in xs], colvals(r, 'k'))], tags, []
+
+
+FRAME_ARR_OPS = [fop_row, fop_values, fop_concat0, fop_concat1_aligned, fop_assign_col_arr, fop_assign_part_arr, fop_insert_after,
+                 fop_transpose, fop_iter_array_rows, fop_concat1_union, fop_assign_row_series, fop_fillna_frame, fop_overlay, fop_from_dict_lists]
+SAME_PAIR_OPS = (fop_row, fop_values, fop_transpose, fop_iter_array_rows)
 
 
 def frame_arr_cases(ctx):
-    pairs = [(hd, od) for hd in HOSTS for od in HOSTS]
+    pairs = [(hd, od) for hd in HOSTS_CORE for od in HOSTS_CORE]
     for op in FRAME_ARR_OPS:
-        sel = pairs if ctx.tier == 'thorough' else ctx.rng.sample(pairs, ctx.n(40, 0))
+        sel = pairs if ctx.tier == 'thorough' else ctx.rng.sample(pairs, min(len(pairs), ctx.n(12, 0)))
         for hd, od in sel:
             a, b = host(hd), host(od)
-            second = b.dtype if op in (fop_row, fop_values) else OTHER.dtype
+            second = b.dtype if op in SAME_PAIR_OPS else (a.dtype if op is fop_assign_row_series else OTHER.dtype)
             for layout in zoo.layouts_for([a.dtype, second]):
                 c = arr_case(ctx, 'api:frame-array', op, hd, od, layout=layout)
                 if c is not None:
@@ -928,6 +1136,8 @@ ITER_ELEMS = [True, False, 0, 1, -1, 300, 2**53 + 1, 10**15, 10**15 + 1, 2**63 -
 
 
 def _cls(x):
+    if isinstance(x, (np.datetime64, np.timedelta64, datetime.date, datetime.timedelta)):
+        return 'time'
     if isinstance(x, (bool, np.bool_)):
         return 'bool'
     if isinstance(x, (int, np.integer)):
@@ -943,8 +1153,28 @@ def _cls(x):
     return 'tuple'
 
 
+def _is_time(x):
+    return isinstance(x, (np.datetime64, np.timedelta64, datetime.date, datetime.timedelta))
+
+
+def iter_plan(xs):
+    '''NumPy's discovery over datetime64/timedelta64 mixed with other kinds is outside the oracle model: S only.'''
+    kinds = {elem_np_dtype(x).kind for x in xs}
+    if any(_is_time(x) for x in xs) and len(kinds) > 1:
+        return None
+    return p_iter(xs)
+
+
 def iter_finding(xs):
     '''Finding classes of util.prepare_iter_for_array, from the element classes only.'''
+    if any(isinstance(x, np.timedelta64) for x in xs):
+        if any(isinstance(x, np.datetime64) or _cls(x) in ('int', 'bool') for x in xs) \
+                and not any(_cls(x) in ('str', 'none', 'tuple') for x in xs):
+            return 'C07-iter-time'
+    if any(_is_time(x) for x in xs):
+        if all(isinstance(x, np.datetime64) for x in xs) and 'C07-datetime-week' in findings_of([E(x) for x in xs]):
+            return 'C07-datetime-week'      # NumPy's discovery promotes datetime64[Y|M] with [W] to [W] as np.result_type does
+        return None
     cl = {_cls(x) for x in xs}
     if 'tuple' in cl or 'none' in cl or ('str' in cl and len(cl - {'bytes'}) > 1):
         return None        # the library (or NumPy, for None) chooses object
@@ -997,7 +1227,7 @@ def iter_case(ctx, op, xs):
         tags['finding'] = f
     try:
         obs = op(list(xs))
-        cols = [Col(p_iter(xs), [f'(FromElem {elem(x)})' for x in xs], obs)]
+        cols = [Col(iter_plan(xs), [f'(FromElem {elem(x)})' for x in xs], obs)]
     except Exception as e:  # noqa
         cols = e
     return mk_case(ctx, 'api:iterable', op.__name__[4:], desc, cols, [], tags=tags, nontrivial=len(cl) > 1 or len({type(x) for x in xs}) > 1)
@@ -1009,10 +1239,8 @@ def iter_cases(ctx):
     for k, op in enumerate(ITER_OPS):
         if ctx.tier == 'thorough':
             sel = pairs + triples
-        elif k == 0:
-            sel = pairs
         else:
-            sel = ctx.rng.sample(pairs + triples, ctx.n(80, 0))
+            sel = ctx.rng.sample(pairs + triples, min(len(pairs) + len(triples), ctx.n(300 if k == 0 else 45, 0)))
         for xs in sel:
             if op is iop_index:
                 try:
@@ -1077,7 +1305,7 @@ def kernel_cases(ctx):
             yield Case('kernel:fill_value', {'call': fn.__name__, 'arg': str(arg), 'observed': out}, m=f'pv_eqb ({coq}) {out}',
                        tags={'kernel': fn.__name__})
     # n-ary loops on dtype lists
-    n = ctx.n(300, 3000)
+    n = ctx.n(200, 3000)
     for _ in range(n):
         ds = [grid[ctx.rng.randrange(len(grid))] for _ in range(ctx.rng.randint(2, 4))]
         if any(excluded_pair(x.kind, y.kind) for x in ds for y in ds):
@@ -1092,7 +1320,7 @@ def kernel_cases(ctx):
                    m=f'M_dtype_check {p_iterdt(ds)} {dt(it)} && M_dtype_check {p_concat(ds)} {dt(cc)}', tags={'kernel': 'nary'})
     # the flag loop of prepare_iter_for_array
     pool = ITER_ELEMS
-    for _ in range(ctx.n(300, 3000)):
+    for _ in range(ctx.n(200, 3000)):
         xs = [pool[ctx.rng.randrange(len(pool))] for _ in range(ctx.rng.randint(1, 4))]
         resolved, has_tuple, _v = util.prepare_iter_for_array(list(xs))
         ctx.count('kernel:prepare_iter')
@@ -1126,8 +1354,26 @@ def oracle_sweep(ctx):
     ctx.dist['oracle:np_result_type:pairs'] = len(cs)
 
 
+def witness_cases(ctx):
+    '''One fixed case per known finding (run first, every run): a listed finding that stops reproducing is reported.'''
+    two_d = ((2, True), (1, False))
+    cs = [elem_case(ctx, 'corpus:witness', op_s_reindex, 'int64', 1.5),
+          elem_case(ctx, 'corpus:witness', op_s_reindex, 'M8[M]', np.datetime64('2020-01-02', 'W')),
+          elem_case(ctx, 'corpus:witness', op_s_reindex, 'M8[ns]', 'a'),
+          frame_elem_case(ctx, fop_assign_bloc, 'int32', 'a', two_d),
+          iter_case(ctx, iop_series, (True, 2)),
+          iter_case(ctx, iop_series, (b'a', 1)),
+          iter_case(ctx, iop_series, (2**53 + 1, np.float64(1.5))),
+          iter_case(ctx, iop_series, (np.timedelta64(1, 'Y'), 0)),
+          arr_case(ctx, 'corpus:witness', op_s_overlay_union, 'm8[ns]/full', 'm8[ns]/full')]
+    for c in cs:
+        c.kind = 'corpus:witness'
+        yield c
+
+
 def cases(ctx):
     oracle_sweep(ctx)
+    yield from witness_cases(ctx)
     yield from kernel_cases(ctx)
     yield from series_elem_cases(ctx)
     yield from series_arr_cases(ctx)
